@@ -90,6 +90,12 @@ def discharge(prog, f, n, kind, pv):
                 if a[0] == "call" and a[4] is True and an in PAIRS.get(a[1], ()) and a[3] in [x for x in alts if x]:
                     tag = "G10 (through clone)" if a[3] != ap else "G2"
                     return "%s: %s() holds for the same place, %s() is Some" % (tag, a[1], an)
+            # G2b: the same place was matched against the variant the accessor extracts
+            base_an = an.replace("as_mut_", "").replace("as_", "")
+            for a in atoms:
+                if a[0] == "variant" and a[3] is True and isinstance(a[2], str) and a[1] in [x for x in alts if x]:
+                    if a[2].split("::")[-1].lower() == base_an.lower():
+                        return "G2: matched variant %s of the same place, %s() is Some" % (a[2].split("::")[-1], an)
             # G8: s.get(C.len()..) after s.starts_with(C)
             if an == "get" and ap:
                 rng = hir.peel(hir.call_args(accessor)[1])
